@@ -159,8 +159,31 @@ static void JsonCase(const json& c, vh::Report& r) {
   r.NonTrivial(c["toks"].dump());
 }
 
+// one construct nested n times (MATH or ASCII spelling)
+static std::string DeepText(const std::string& op, int n, bool math) {
+  std::string open, close, core = "X1";
+  if (op == "BOOLEAN") { open = math ? "ℬ" : "B"; core = "(X1)"; }
+  else if (op == "PAREN") { open = "("; close = ")"; core = math ? "X1∪X1" : "X1 \\union X1"; }
+  else if (op == "NOT") { open = math ? "¬" : "\\neg "; core = math ? "1=1" : "1 \\eq 1"; }
+  else if (op == "ENUM") { open = "{"; close = "}"; }
+  else if (op == "SMALLPR") { open = "pr1("; close = ")"; }
+  else if (op == "TUPLE") { open = "(X1,"; close = ")"; }
+  else if (op == "REF") { open = "@{"; close = "|sing,nomn}"; }
+  else { open = math ? "∀a∈X1 " : "\\A a \\in X1 "; core = math ? "a=a" : "a \\eq a"; }
+  std::string t; t.reserve((open.size() + close.size()) * static_cast<size_t>(n) + core.size());
+  for (int i = 0; i < n; ++i) t += open;
+  t += core;
+  for (int i = 0; i < n; ++i) t += close;
+  return t;
+}
 static void Handle(const json& c, vh::Report& r) {
   if (c["kind"] == "json") { JsonCase(c, r); return; }
+  if (c["kind"] == "deep") {
+    const std::string op = c["toks"][0]; const int n = std::stoi(c["toks"][1].get<std::string>());
+    for (const bool math : { true, false }) CheckText(DeepText(op, n, math), { {"deep", c["toks"]}, {"math", math} }, r, nullptr);
+    r.Count("deep-inputs"); r.NonTrivial(c["toks"].dump());
+    return;
+  }
   for (const bool math : { true, false }) for (const bool tight : { false, true }) {
     const std::string text = Build(c["toks"], math, tight);
     CheckText(text, { {"toks", c["toks"]}, {"math", math}, {"tight", tight}, {"bytes", [&] { json a = json::array(); for (unsigned char ch : text) a.push_back(static_cast<int>(ch)); return a; }()} }, r, nullptr);
@@ -182,6 +205,6 @@ int main(int argc, char** argv) {
   vh::Args args(argc, argv);
   C();
   if (args.has("record")) return vh::RunRecorder(args.get("trace"), args.get("out"), [&]() { return Record(args); });
-  vh::IsoOptions iso; iso.faultProperty = "C04"; iso.batch = 250; iso.watchdogSeconds = 6;
+  vh::IsoOptions iso; iso.faultProperty = "C04"; iso.batch = 250; iso.watchdogSeconds = 45;   // the deep-nesting inputs are 0.5 MB each and go through ~70 calls
   return vh::Main(argc, argv, Handle, true, iso);
 }
